@@ -63,6 +63,9 @@ def normal_paths(S, frm=None, limit=5000, max_visits=1):
     ps = S.paths(frm, lambda n: n.idx in rets and n.ctx is S.root_ctx and n.kind == "return", exclude=("u", "ui"), limit=limit, max_visits=max_visits)
     out = []
     for p in ps:
+        end = p[-1][0]
+        if not (end.kind == "return" and end.ctx is S.root_ctx):
+            continue   # diverging ends (internal panics, unreachable) are not normal paths
         pi = PathInfo(S, p)
         out.append(pi)
     return out
